@@ -9,6 +9,8 @@ import (
 	"crypto/sha1"
 	"encoding/json"
 	"fmt"
+	"golang.org/x/tools/go/ssa"
+	"golang.org/x/tools/go/ssa/ssautil"
 	"os"
 	"os/exec"
 	"path/filepath"
@@ -29,6 +31,8 @@ type replayFile struct {
 	Trace    []string          `json:"trace,omitempty"`
 	Notes    []string          `json:"notes,omitempty"`
 	Status   string            `json:"status"`
+	Preempt  int               `json:"preempt"`
+	Tier     string            `json:"tier"`
 }
 
 func concretePrefix(decs []Dec) []Dec {
@@ -46,6 +50,10 @@ func vectorOf(v *Violation) map[string]uint64 {
 	for _, in := range v.Inputs {
 		m[in.Name] = in.bits
 	}
+	m["in___norder_0"] = uint64(len(v.Order))
+	for i, c := range v.Order {
+		m[fmt.Sprintf("in___order_%d", i)] = uint64(c)
+	}
 	return m
 }
 
@@ -54,7 +62,7 @@ func replayViolation(prog *Program, spec *PropSpec, v *Violation, skipNative boo
 	dir := filepath.Join(verifDir, "replays", spec.ID, fmt.Sprintf("%x", h[:6]))
 	os.MkdirAll(dir, 0o755)
 	rf := replayFile{Property: spec.ID, Entry: v.Entry, Label: v.Label, Kind: v.Kind, Detail: v.Detail, Pkgs: spec.Pkgs,
-		Vector: vectorOf(v), Decs: v.Decs, Inputs: v.Inputs, Trace: v.Trace, Notes: v.Notes}
+		Vector: vectorOf(v), Decs: v.Decs, Inputs: v.Inputs, Trace: v.Trace, Notes: v.Notes, Tier: curTier()}
 	status := doReplay(prog, spec, &rf, dir, skipNative)
 	rf.Status = status
 	b, _ := json.MarshalIndent(rf, "", " ")
@@ -69,10 +77,14 @@ func doReplay(prog *Program, spec *PropSpec, rf *replayFile, dir string, skipNat
 	}
 	// 1. concrete re-interpretation
 	cfg := defaultConfig()
-	spec.configure(&cfg, "quick", rf.Entry)
+	tier := rf.Tier
+	if tier == "" {
+		tier = "quick"
+	}
+	gThorough = tier == "thorough"
+	spec.configure(&cfg, tier, rf.Entry)
 	cfg.Workers = 1
 	cfg.MaxPaths = 1
-	cfg.Preempt = 1 << 30
 	er := runEntry(prog, entry, cfg, rf.Vector, concretePrefix(rf.Decs))
 	found := false
 	for _, cv := range er.Violations {
@@ -100,7 +112,7 @@ func doReplay(prog *Program, spec *PropSpec, rf *replayFile, dir string, skipNat
 			sched = true
 		}
 	}
-	out, ok := nativeRun(spec, rf, dir, sched)
+	out, ok := nativeRun(prog, spec, rf, dir, sched)
 	os.WriteFile(filepath.Join(dir, "native.log"), []byte(out), 0o644)
 	if ok {
 		return "interp=reproduced native=reproduced"
@@ -113,7 +125,7 @@ func doReplay(prog *Program, spec *PropSpec, rf *replayFile, dir string, skipNat
 
 // nativeRun compiles the harness natively (overlay) and runs the entry with
 // the input vector. Returns the output and whether the violation reproduced.
-func nativeRun(spec *PropSpec, rf *replayFile, dir string, sched bool) (string, bool) {
+func nativeRun(prog *Program, spec *PropSpec, rf *replayFile, dir string, sched bool) (string, bool) {
 	ov, _, err := harnessOverlay(spec.Pkgs, true)
 	if err != nil {
 		return err.Error(), false
@@ -150,6 +162,28 @@ func nativeRun(spec *PropSpec, rf *replayFile, dir string, sched bool) (string, 
 		i++
 		os.WriteFile(real, src, 0o644)
 		repl[vp] = real
+	}
+	if sched {
+		// virtual hooks: widen the window before every (*sync.Cond).Wait in the
+		// packages under test (instrumented copies of the current source, overlay only)
+		for file, lines := range condWaitLines(prog, spec) {
+			src, err := os.ReadFile(file)
+			if err != nil {
+				continue
+			}
+			ls := strings.Split(string(src), "\n")
+			for _, ln := range lines {
+				if ln-1 < len(ls) {
+					l := ls[ln-1]
+					trim := strings.TrimLeft(l, " \t")
+					ls[ln-1] = l[:len(l)-len(trim)] + "vfWindow(); " + trim
+				}
+			}
+			real := filepath.Join(od, fmt.Sprintf("w%d_%s", i, filepath.Base(file)))
+			i++
+			os.WriteFile(real, []byte(strings.Join(ls, "\n")), 0o644)
+			repl[file] = real
+		}
 	}
 	tf := filepath.Join(od, "zz_verif_replay_test.go")
 	os.WriteFile(tf, []byte(test), 0o644)
@@ -237,4 +271,49 @@ func cmdReplay(args []string) int {
 		return 1
 	}
 	return 0
+}
+
+func curTier() string {
+	if gThorough {
+		return "thorough"
+	}
+	return "quick"
+}
+
+// condWaitLines finds the source lines that call (*sync.Cond).Wait in the
+// packages of spec (from the SSA of the current tree).
+func condWaitLines(prog *Program, spec *PropSpec) map[string][]int {
+	out := map[string][]int{}
+	seen := map[string]bool{}
+	dirs := map[string]bool{}
+	for _, rp := range spec.Pkgs {
+		dirs[filepath.Join(repoDir, rp)] = true
+	}
+	for fn := range ssautil.AllFunctions(prog.prog) {
+		if fn.Pkg == nil || !strings.HasPrefix(fn.Pkg.Pkg.Path(), modulePath) {
+			continue
+		}
+		for _, b := range fn.Blocks {
+			for _, in := range b.Instrs {
+				c, ok := in.(*ssa.Call)
+				if !ok {
+					continue
+				}
+				callee := c.Call.StaticCallee()
+				if callee == nil || callee.String() != "(*sync.Cond).Wait" {
+					continue
+				}
+				ps := prog.fset.Position(c.Pos())
+				if !dirs[filepath.Dir(ps.Filename)] || strings.HasPrefix(filepath.Base(ps.Filename), "zz_verif_") {
+					continue
+				}
+				k := fmt.Sprintf("%s:%d", ps.Filename, ps.Line)
+				if !seen[k] {
+					seen[k] = true
+					out[ps.Filename] = append(out[ps.Filename], ps.Line)
+				}
+			}
+		}
+	}
+	return out
 }
